@@ -136,7 +136,8 @@ def grid_case(draw, long_hi=200, short_extra=5, consumers=False):
     for a in range(3):
         hi = max(lo, long_hi) if a == long_axis else lo + short_extra
         axes.append(draw(axis_params(lo, hi)))
-    c = dict(order=p, boundary=b, axes=axes)
+    c = dict(order=p, boundary=b, axes=axes,
+             extra_keys=draw(st.booleans()))
     if consumers:
         c["psi4"] = draw(st.integers(0, 2)) == 0
         c["est"] = sorted(draw(st.sets(st.integers(0, 25), min_size=2,
@@ -153,7 +154,7 @@ GENERIC_GRIDS = [
     dict(order=4, boundary="no boundary",
          axes=[mkaxis(6, 0.1, 0.1), mkaxis(12, 0.3, 0.1),
                mkaxis(7, 1 / 3, 1 / 3)]),
-    dict(order=2, boundary="no boundary",
+    dict(order=2, boundary="no boundary", extra_keys=True,
          axes=[mkaxis(3, 0.1, 0.1), mkaxis(24, 0.1, 0.1),
                mkaxis(5, -1.0, 0.25)]),
     # notebook-style box, large offset with small spacing, negative min
@@ -172,6 +173,14 @@ def param_of(case):
         prm["N" + a] = int(ax["N"])
         prm[a + "min"] = float(ax["min"])
         prm["d" + a] = float(ax["d"])
+    if case.get("extra_keys"):
+        # dictionaries from reading.parameters() carry more than the nine
+        # documented keys (domain edges, the simulation name, ...); the grid
+        # is defined by N, min and spacing only
+        for a, ax in zip("xyz", case["axes"]):
+            prm[a + "max"] = float(ax["min"]) + int(ax["N"]) * float(ax["d"])
+        prm["simname"] = "sim"
+        prm["max_refinement_levels"] = 1
     return prm
 
 
